@@ -793,6 +793,18 @@ func (e *Env) jsonKindsFlagsAsArray(t *Type) int {
 	return 32
 }
 
+func init() {
+	// Python binary: an array whose elements are variable-length vectors (reachable through a
+	// generic argument) comes back with ndarray elements that the writer then refuses
+	ShapeSwitches["array-of-vector"] = func(e *Env, t *Type) bool {
+		if t.Kind != KArray {
+			return false
+		}
+		u := e.underlyingSafe(t.Elem)
+		return u != nil && ((u.Kind == KVector && u.Len == nil) || u.Kind == KMap || u.Kind == KArray)
+	}
+}
+
 func (e *Env) underlyingSafe(t *Type) (u *Type) {
 	defer func() {
 		if recover() != nil {
